@@ -75,8 +75,9 @@ func (vc *valueCounter) isValueReader(fn *ssa.Function) bool {
 }
 
 // opensValue: fn obtains a tag itself — directly, or in code extracted from it:
-// an unexported function all of whose uses are static calls from fn (the head of
-// the production split off, `readMapHead` of `readMap`) is part of fn.
+// an unexported function all of whose uses are static calls from fn and whose
+// call precedes every other read of fn (the head of the production split off,
+// `readMapHead` of `readMap`) is part of fn.
 func (vc *valueCounter) opensValue(fn *ssa.Function, depth int) bool {
 	for _, cs := range vc.w.callSitesIn(fn) {
 		sc := cs.call.Call.StaticCallee()
@@ -86,11 +87,47 @@ func (vc *valueCounter) opensValue(fn *ssa.Function, depth int) bool {
 		if vc.tagRd[sc] {
 			return true
 		}
-		if depth < 3 && sc != fn && vc.consumers[sc] && vc.w.extractedFrom(sc, fn) && vc.opensValue(sc, depth+1) {
+		if depth < 3 && sc != fn && vc.consumers[sc] && vc.w.extractedFrom(sc, fn) && vc.readsFirst(cs.call, fn) && vc.opensValue(sc, depth+1) {
 			return true
 		}
 	}
 	return false
+}
+
+// readsFirst: call c precedes every other consuming call of fn (the head of the
+// production comes first; a value reader with a single caller that sits in one
+// branch next to another reader — `readField` / `ReadData` in the bind / skip
+// arms of an extracted field reader — is an alternative, not the head).
+func (vc *valueCounter) readsFirst(c *ssa.Call, fn *ssa.Function) bool {
+	for _, cs := range vc.w.callSitesIn(fn) {
+		if cs.call == c {
+			continue
+		}
+		consumes := false
+		for _, g := range vc.w.calleesOf(cs.call) {
+			if vc.consumers[g] && vc.w.inPkg(g) {
+				consumes = true
+			}
+		}
+		if !consumes {
+			continue
+		}
+		if cs.call.Block() == c.Block() {
+			for _, in := range c.Block().Instrs {
+				if in == ssa.Instruction(cs.call) {
+					return false // the other call comes first
+				}
+				if in == ssa.Instruction(c) {
+					break
+				}
+			}
+			continue
+		}
+		if !c.Block().Dominates(cs.call.Block()) {
+			return false
+		}
+	}
+	return true
 }
 
 // extractedFrom: h is an unexported package function with a body whose only
